@@ -108,7 +108,7 @@ func GenSpec(g *sim.Tape, named bool, allowOutbox bool) (world.Spec, []string) {
 			hasOutbox = true
 		}
 	}
-	scale := g.Int(3)
+	scale := []int{0, 0, 1, 1, 2}[g.Int(5)]
 	if hasOutbox && scale == 2 {
 		scale = 1
 	}
@@ -121,8 +121,8 @@ func GenSpec(g *sim.Tape, named bool, allowOutbox bool) (world.Spec, []string) {
 		spec.GCGrace = []time.Duration{5 * time.Second, time.Minute}[g.Int(2)]
 		spec.GCInterval = 20 * time.Second
 	default:
-		spec.GCGrace = []time.Duration{time.Minute, 30 * time.Minute}[g.Int(2)]
-		spec.GCInterval = 10 * time.Minute
+		spec.GCGrace = []time.Duration{time.Minute, 10 * time.Minute}[g.Int(2)]
+		spec.GCInterval = 2 * time.Minute
 	}
 	return spec, classes
 }
